@@ -104,6 +104,7 @@ type SimNode struct {
 	lastKnown       map[uint32]int
 	peersAtLeave    []*peers.Peer
 	constructing    bool
+	isObserver      bool
 	ownScanned      int
 	ownPayload      map[string]int
 	sigChecked      map[string]bool
@@ -184,6 +185,7 @@ type Cluster struct {
 	finalHook       func()
 	byzHandler      func(s *Step)
 	byzGen          func(g *genState) *Step
+	observer        *SimNode
 	emitted         map[string]string
 	emitScanned     int
 	frameHashes     map[int]frameRef
